@@ -799,6 +799,21 @@ func (n *Net) Inject(pipe int, kind, dir string, dur time.Duration) {
 	} else if dir == "s2c" {
 		sel = both[1:]
 	}
+	if kind == "goaway" {
+		// an intermediary (gateway, load balancer, another implementation) shuts the
+		// connection down in an orderly way: a close frame with status 1001 "going
+		// away" to the client, then FIN. Only possible at a message boundary with
+		// nothing in flight; anywhere else it degenerates to a plain FIN.
+		if st := p.s2c; p.WS && st.Tap.WS && !st.Tap.Pending() && len(st.segs) == 0 && st.rerr == nil && !st.blackhole {
+			frame := []byte{0x88, 0x02, 0x03, 0xE9}
+			st.Tap.Feed(frame)
+			st.wOff += int64(len(frame))
+			st.dOff += int64(len(frame))
+			st.rbuf = append(st.rbuf, frame...)
+			n.Probes["close-frame-1001-from-the-peer"]++
+		}
+		kind = "fin"
+	}
 	switch kind {
 	case "fin":
 		// the connection ends gracefully at this point of dir; the opposite
